@@ -4,7 +4,7 @@ CONSTANTS
   Terms = {"semi"}
   MaxE = 0
   MaxS = 1
-  MaxX = 3
+  MaxX = 4
   MaxP = 0
   MaxL = 0
   MaxTop = 1
